@@ -295,9 +295,13 @@ def matchfile_from_alignment(
 
             duration_symb = Fraction(duration_divs, dpq * 4)
 
-            beat = int((onset_divs - msd) // dpq)
+            # beat within the measure in units of the time signature denominator
+            beat_divs = Fraction(dpq * 4, int(ts_den))
+            beat = int(int(onset_divs - msd) // beat_divs)
 
-            moffset_divs = Fraction(int(onset_divs - msd - beat * dpq), (dpq * 4))
+            moffset_divs = Fraction(int(onset_divs - msd), dpq * 4) - beat * Fraction(
+                1, int(ts_den)
+            )
 
             if debug:
                 duration_beats = offset_beats - onset_beats
